@@ -4,7 +4,7 @@
    Model: coq/model/M_Ledger.v (transcription of x/crosschain many_to_one / pool / batch / bridge-call code, the
    crosschain precompile and the erc20 conversions), tied to /repo by harness/c04 on every run. *)
 From Coq Require Import ZArith List.
-From FxV Require Import model.M_Ledger proofs.P_Ledger proofs.P_LedgerC04.
+From FxV Require Import model.M_Ledger proofs.P_Ledger proofs.P_LedgerC04 proofs.P_LedgerGhost.
 Import ListNotations.
 Open Scope Z_scope.
 
@@ -16,6 +16,53 @@ Theorem C04_conservation : forall U g t s0 ops,
   user_holdings U t s0 + in_flight t s0 + (deposited t s - deposited t s0) - (executed_out t s - executed_out t s0).
 Proof. exact conservation. Qed.
 Print Assumptions C04_conservation.
+
+(* `deposited` / `executed_out` (and the per-chain `dep_via` / `exe_via` inside net_in) are counters the model's steps maintain.
+   WHEN they move: an accepted step moves them by exactly the events of that step — dep_events: the amount(s) the executed
+   inbound claim carries (MsgSendToFxClaim, MsgBridgeCallClaim, inbound IBC); exe_events: the total of the batch an observed
+   MsgSendToExternalClaim names, the token list of the call a successful MsgBridgeCallResultClaim names, what is handed to an
+   IBC channel — and a refused step, or any other operation, moves nothing (its event lists are empty). *)
+Theorem C04_counters_move_with_the_step : forall g t c s o,
+  let s' := fst (step g s o) in
+  deposited t s' = deposited t s + ev_tok t (step_deps g s o) /\
+  executed_out t s' = executed_out t s + ev_tok t (step_exes g s o) /\
+  dep_via c t s' = dep_via c t s + ev_on t c (step_deps g s o) /\
+  exe_via c t s' = exe_via c t s + ev_on t c (step_exes g s o).
+Proof. exact counters_move_with_the_step. Qed.
+Print Assumptions C04_counters_move_with_the_step.
+
+(* the event lists, spelled out *)
+Theorem C04_events_spelled_out : forall g s o,
+  step_deps g s o = (if snd (step g s o) then dep_events o else []) /\
+  step_exes g s o = (if snd (step g s o) then exe_events (sr s) o else []) /\
+  (forall c t r x tg, dep_events (OSendToFx c t r x tg) = [(t, c, x)]) /\
+  (forall c sd to rf toks m ok tm, dep_events (OBridgeCallIn c sd to rf toks m ok tm) = map (fun p => (fst p, c, snd p)) toks) /\
+  (forall c h t n r, exe_events r (OBatchExecuted c h t n) =
+     match find_batch c t n (batches r) with Some b => [(t, c, total_of (b_txs b))] | None => [] end) /\
+  (forall c n r, exe_events r (OBridgeCallResult c n true) =
+     match find_call c n (calls r) with Some b => map (fun p => (fst p, c, snd p)) (c_toks b) | None => [] end) /\
+  (forall c t a amt fee r, dep_events (OSendToExternal c t a amt fee) = [] /\ exe_events r (OSendToExternal c t a amt fee) = []).
+Proof. intros. repeat split. Qed.
+Print Assumptions C04_events_spelled_out.
+
+(* hence the counters are sums over the operation list ... *)
+Theorem C04_counters_are_sums : forall g t c ops s,
+  deposited t (steps g s ops) = deposited t s + ev_tok t (deps_of g s ops) /\
+  executed_out t (steps g s ops) = executed_out t s + ev_tok t (exes_of g s ops) /\
+  dep_via c t (steps g s ops) = dep_via c t s + ev_on t c (deps_of g s ops) /\
+  exe_via c t (steps g s ops) = exe_via c t s + ev_on t c (exes_of g s ops).
+Proof. exact counters_are_sums. Qed.
+Print Assumptions C04_counters_are_sums.
+
+(* ... and conservation reads: holdings + in-flight = initial + (sum of the deposits of the accepted steps) - (sum of the
+   withdrawals of the accepted steps), no model-maintained counter involved *)
+Theorem C04_conservation_over_the_op_list : forall U g t s0 ops,
+  users U -> recs_wf U (sr s0) -> Forall (op_ok U) ops ->
+  let s := steps g s0 ops in
+  user_holdings U t s + in_flight t s =
+  user_holdings U t s0 + in_flight t s0 + ev_tok t (deps_of g s0 ops) - ev_tok t (exes_of g s0 ops).
+Proof. exact conservation_over_the_op_list. Qed.
+Print Assumptions C04_conservation_over_the_op_list.
 
 (* user_holdings sums, over the users, the ten denominations of the token (base, bridge denoms, IBC voucher) and the ERC-20 *)
 Theorem C04_holdings_is_the_sum : forall U t s,
@@ -69,6 +116,22 @@ Theorem C04_withdrawable_guarded : forall g s c i tk a amt fee,
 Proof. exact withdrawable_guarded. Qed.
 Print Assumptions C04_withdrawable_guarded.
 
+(* its premises hold together (state after one executed deposit).  (1)(2)(3) environment: registered token with a bridge token
+   on c, a user is not a module account; (4)(5) MsgSendToExternal.ValidateBasic; (6) the property's own hypothesis; (7)-(9) bank
+   balances are never negative; (10) is what finding C04-1 leaves of "the amount is bridged in through c" (it would follow from
+   C04_escrow_identity if the older-rule refund did not park the bridge denomination in the erc20 module); C04-2 / C04-4 are
+   about other entry points (bridge-call refunds, IBC targets) and put no premise here *)
+Theorem C04_withdrawable_guarded_satisfiable :
+  let s := steps ex_cfg ex_s0 [OSendToFx 1 1 100 1000 0] in
+  find_tok ex_cfg 1 = Some ex_tk1 /\ on_chain ex_tk1 1 = true /\ 100 <> cacc 1 /\ 0 < 990 /\ 0 < 10 /\
+  990 + 10 <= cget (CB 100 (base_of ex_tk1)) (sb s) /\
+  0 <= cget (CB (cacc 1) (base_of ex_tk1)) (sb s) /\ 0 <= cget (CB 100 (alias_of ex_tk1 1)) (sb s) /\
+  0 <= cget (CB (cacc 1) (alias_of ex_tk1 1)) (sb s) /\
+  (t_kind ex_tk1 = KMod -> 990 + 10 <= cget (CB (cacc 1) (alias_of ex_tk1 1)) (sb s)) /\
+  snd (step ex_cfg s (OSendToExternal 1 1 100 990 10)) = true.
+Proof. exact withdrawable_guarded_premises_satisfiable. Qed.
+Print Assumptions C04_withdrawable_guarded_satisfiable.
+
 (* the full reading (refused only if the amount exceeds what is bridged in through c) is FALSE of the code as it is:
    after the older-rule refund of a failed bridge call the bridge denomination sits in the erc20 module account *)
 Theorem C04_withdrawable_refuted :
@@ -104,7 +167,31 @@ Theorem C04_ibc_voucher_unreceivable : forall g s t tk a x,
 Proof. exact ibc_voucher_unreceivable. Qed.
 Print Assumptions C04_ibc_voucher_unreceivable.
 
+(* non-vacuity over whole histories: a deposit is executed and its whole amount withdrawn again (send, batch, batch observed
+   as executed): all four steps accepted, holdings 0 -> 1000 -> 0, in flight 0 -> 1000 -> 0, the bridge denomination minted
+   and burned, one deposit event and one withdrawal event of 1000 *)
 Theorem C04_nonvacuous :
+  Forall (op_ok ex_U) ex_round /\ accepted ex_cfg ex_s0 ex_round = [true; true; true; true] /\
+  let s1 := steps ex_cfg ex_s0 (firstn 1 ex_round) in let s3 := steps ex_cfg ex_s0 (firstn 3 ex_round) in
+  let s := steps ex_cfg ex_s0 ex_round in
+  (user_holdings ex_U 1 ex_s0, user_holdings ex_U 1 s1, user_holdings ex_U 1 s3, user_holdings ex_U 1 s) = (0, 1000, 0, 0) /\
+  (in_flight 1 s1, in_flight 1 s3, in_flight 1 s) = (0, 1000, 0) /\
+  (supply_of 11 s1, supply_of 11 s3, supply_of 11 s) = (1000, 0, 0) /\
+  deps_of ex_cfg ex_s0 ex_round = [(1, 1, 1000)] /\ exes_of ex_cfg ex_s0 ex_round = [(1, 1, 1000)] /\
+  (deposited 1 s, executed_out 1 s, net_in 1 1 s) = (1000, 1000, 0).
+Proof. exact round_trip_nonvacuous. Qed.
+Print Assumptions C04_nonvacuous.
+
+(* a longer mixed history (two deposits, sends of two tokens, a conversion, a batch, a cancelled precompile send, a two-token
+   bridge call with a successful result): all eleven steps accepted, its events, and the values of the observables *)
+Theorem C04_nonvacuous_mixed :
+  accepted ex_cfg ex_s0 ex_hist = [true; true; true; true; true; true; true; true; true; true; true] /\
+  deps_of ex_cfg ex_s0 ex_hist = [(1, 1, 1000); (1, 2, 500)] /\
+  exes_of ex_cfg ex_s0 ex_hist = [(1, 1, 107); (0, 1, 20); (1, 1, 30)].
+Proof. exact mixed_history_all_accepted. Qed.
+Print Assumptions C04_nonvacuous_mixed.
+
+Theorem C04_nonvacuous_mixed_values :
   Forall (op_ok ex_U) ex_hist /\
   map (fun o => snd (step ex_cfg (steps ex_cfg ex_s0 (firstn 0 ex_hist)) o)) (firstn 1 ex_hist) = [true] /\
   let s := steps ex_cfg ex_s0 ex_hist in
@@ -112,4 +199,4 @@ Theorem C04_nonvacuous :
   (user_holdings ex_U 0 s, in_flight 0 s, deposited 0 s, executed_out 0 s) = (4925, 55, 0, 20) /\
   net_in 1 1 s = 863 /\ supply_of 11 s = 863 /\ held_total ex_U 11 s = 863.
 Proof. exact conservation_nonvacuous. Qed.
-Print Assumptions C04_nonvacuous.
+Print Assumptions C04_nonvacuous_mixed_values.
